@@ -80,6 +80,9 @@ mod template;
 mod tera;
 mod tests;
 mod utils;
+#[cfg(tera_verif)]
+#[doc(hidden)]
+pub mod verif;
 /// The value type used by Tera and supporting types (`Key`, `Map`, `Number`, `ValueKind`).
 pub mod value;
 pub(crate) mod vm;
